@@ -4,7 +4,7 @@
    compares with the committed pin (Properties/pins/C15.txt) so that a statement cannot be weakened
    silently; `Print Assumptions` lists the axioms it depends on (none are declared by this development). *)
 From Coq Require Import NArith List Bool String.
-From Octo Require Import Model.Relay Proofs.RelayFacts.
+From Octo Require Import Model.Relay Proofs.RelayFacts Generated.ExitPaths Model.ExitPaths Proofs.ExitPathFacts.
 Import ListNotations.
 Set Printing Width 200.
 
@@ -27,6 +27,67 @@ Definition C15_resources_freed := @resources_freed.
 Definition C15_delivered_is_prefix := @delivered_is_prefix.
 
 
+(* the relay functions of the CURRENT source (generated step lists) have the shape the pump model assumes: first send before the join, both pump outcomes mapped to Err, try_join *)
+Definition C15_exit_relay_shape := @relay_model_assumptions_hold.
+(* a sink is shut by the pumps exactly when the pump writing to it returned first with Close (what the exit-path model reads off the ending) *)
+Definition C15_exit_pump_closed_sink := @pump_closed_sink_iff_ending.
+(* every server scenario (transport x first item x environment x pump ending x peer alive) has a trace under the generated tables *)
+Definition C15_exit_server_defined := @server_exit_defined.
+(* server: on EVERY exit path (refused, unresolvable, bind failure, wrong first item, decode error, early EOF, every pump ending; tcp tls ws wss quic) the proxy client observes end-of-stream before the task waits for anything slower than one round trip *)
+Definition C15_exit_peer_sees_end := @peer_sees_end_promptly.
+(* server: the target socket exists exactly on the paths that connected/bound and is dropped again on every one of them, before any slow await *)
+Definition C15_exit_outbound_released := @outbound_released.
+(* server: the per-connection task ends on every path having dropped its end of the link (QUIC: and the connection handle) *)
+Definition C15_exit_task_finishes := @task_finishes.
+(* server: ... without a slow await unless the transport is QUIC and the peer no longer answers *)
+Definition C15_exit_task_finishes_promptly := @task_finishes_promptly.
+(* server QUIC: the connection handle is dropped only after the peer acknowledged the finished stream *)
+Definition C15_exit_quic_server_graceful := @quic_server_closes_gracefully.
+(* every client scenario has a trace under the generated tables *)
+Definition C15_exit_client_defined := @client_exit_defined.
+(* client: whoever ends the flow, the local application observes end-of-stream before the task waits *)
+Definition C15_exit_app_sees_end := @app_sees_end_promptly.
+(* client: the tunnel exists exactly when codec and dial succeeded, is always dropped again, and the server observes end-of-stream on it promptly (in particular when the application ends) *)
+Definition C15_exit_tunnel_shut := @tunnel_shut_promptly.
+(* client: the task ends on every path, drops the local socket, never waits longer than the 5 s close timer and not at all slowly while the server answers *)
+Definition C15_exit_client_task_finishes := @client_task_finishes.
+(* client QUIC: the connection is closed only after the server acknowledged the finished stream *)
+Definition C15_exit_quic_client_graceful := @quic_client_closes_gracefully.
+(* pumps + exit path: when the target closes first everything read from it was delivered and the link shut, and the proxy client sees the end promptly *)
+Definition C15_exit_delivered_then_end := @target_closes_first_delivered_then_peer_sees_end.
+(* sensitivity: with finish() removed from QuicStream::close the end-of-stream theorem is FALSE (target refused over QUIC) *)
+Definition C15_exit_sens_finish_removed := @finish_removed_breaks_peer_sees_end.
+(* ... the concrete trace: the server waits for the idle timeout before the peer sees the end *)
+Definition C15_exit_sens_finish_removed_witness := @finish_removed_target_refused_witness.
+(* sensitivity: quic::relay without inbound.close() still ends the stream at once but closes the connection unacknowledged (rejected by the graceful-close theorem) *)
+Definition C15_exit_sens_no_close_witness := @quic_relay_without_close_witness.
+(* sensitivity: the client QUIC arm without close() closes the connection unacknowledged *)
+Definition C15_exit_sens_client_no_close_witness := @client_quic_without_close_witness.
+(* sensitivity: join! instead of try_join! leaves the pump model: no trace, every theorem fails *)
+Definition C15_exit_sens_join_witness := @join_instead_of_try_join_witness.
+(* a relay_to arm that returns early on connect failure instead of logging changes no trace *)
+Definition C15_exit_harmless_early_return := @relay_to_early_return_on_connect_failure_harmless.
+
+Check @C15_exit_relay_shape.
+Check @C15_exit_pump_closed_sink.
+Check @C15_exit_server_defined.
+Check @C15_exit_peer_sees_end.
+Check @C15_exit_outbound_released.
+Check @C15_exit_task_finishes.
+Check @C15_exit_task_finishes_promptly.
+Check @C15_exit_quic_server_graceful.
+Check @C15_exit_client_defined.
+Check @C15_exit_app_sees_end.
+Check @C15_exit_tunnel_shut.
+Check @C15_exit_client_task_finishes.
+Check @C15_exit_quic_client_graceful.
+Check @C15_exit_delivered_then_end.
+Check @C15_exit_sens_finish_removed.
+Check @C15_exit_sens_finish_removed_witness.
+Check @C15_exit_sens_no_close_witness.
+Check @C15_exit_sens_client_no_close_witness.
+Check @C15_exit_sens_join_witness.
+Check @C15_exit_harmless_early_return.
 Check @C15_close_flushes_then_ends.
 Check @C15_shut_only_by_close.
 Check @C15_first_exit_ends_flow.
@@ -39,3 +100,23 @@ Print Assumptions C15_first_exit_ends_flow.
 Print Assumptions C15_flow_returns_with_first_pump.
 Print Assumptions C15_resources_freed.
 Print Assumptions C15_delivered_is_prefix.
+Print Assumptions C15_exit_relay_shape.
+Print Assumptions C15_exit_pump_closed_sink.
+Print Assumptions C15_exit_server_defined.
+Print Assumptions C15_exit_peer_sees_end.
+Print Assumptions C15_exit_outbound_released.
+Print Assumptions C15_exit_task_finishes.
+Print Assumptions C15_exit_task_finishes_promptly.
+Print Assumptions C15_exit_quic_server_graceful.
+Print Assumptions C15_exit_client_defined.
+Print Assumptions C15_exit_app_sees_end.
+Print Assumptions C15_exit_tunnel_shut.
+Print Assumptions C15_exit_client_task_finishes.
+Print Assumptions C15_exit_quic_client_graceful.
+Print Assumptions C15_exit_delivered_then_end.
+Print Assumptions C15_exit_sens_finish_removed.
+Print Assumptions C15_exit_sens_finish_removed_witness.
+Print Assumptions C15_exit_sens_no_close_witness.
+Print Assumptions C15_exit_sens_client_no_close_witness.
+Print Assumptions C15_exit_sens_join_witness.
+Print Assumptions C15_exit_harmless_early_return.
